@@ -24,13 +24,16 @@ func DefaultPars() []Par {
 }
 
 type runner struct {
-	lg  *sim.Log
-	w   *World
-	run string
-	cur int // current node id
-	st  M   // projection at cur
-	n   int // steps executed
+	lg   *sim.Log
+	w    *World
+	run  string
+	cur  int  // current node id
+	st   M    // projection at cur
+	n    int  // steps executed
+	dead bool // the run left the specification's number domain (recorded on stdout, not judged)
 }
+
+var outOfDomain = 0
 
 func newRunner(lg *sim.Log, base *World, run string) *runner {
 	r := &runner{lg: lg, w: base.Branch(), run: run}
@@ -46,7 +49,22 @@ func (r *runner) fork(run string) *runner {
 	return &n
 }
 
-func (r *runner) step(a string, args M) M {
+func (r *runner) step(a string, args M) (res M) {
+	if r.dead {
+		r.n++
+		return M{"ok": false}
+	}
+	defer func() {
+		if x := recover(); x != nil {
+			if _, ok := x.(OutOfDomain); ok {
+				r.dead = true
+				outOfDomain++
+				res = M{"ok": false}
+				return
+			}
+			panic(x)
+		}
+	}()
 	if args == nil {
 		args = M{}
 	}
@@ -58,7 +76,7 @@ func (r *runner) step(a string, args M) M {
 		x := r.w.Xs[[2]int64{geti(args, "app"), geti(args, "pair")}]
 		args["pairResidue"] = x[0] // cumulative base residue of the batch matching in this pair (0 = conserving so far)
 	}
-	res := r.w.Exec(a, args)
+	res = r.w.Exec(a, args)
 	r.st = r.w.Project()
 	r.cur = r.lg.Add(r.cur, r.run, a, args, res, r.st)
 	r.n++
@@ -136,6 +154,36 @@ type cfg struct {
 	mm      bool
 }
 
+// poolsOf returns the ids of the app's pools (enabled first when wantEnabled).
+func (r *runner) poolsOf(app int64) (all, enabled []int64) {
+	for _, p := range r.st["pools"].([]M) {
+		if p["app"].(int64) == app {
+			all = append(all, p["id"].(int64))
+			if !p["disabled"].(bool) {
+				enabled = append(enabled, p["id"].(int64))
+			}
+		}
+	}
+	return
+}
+
+func (r *runner) farmedBy(u string, app, pool int64) int64 {
+	var tot int64
+	for _, q := range r.st["qf"].([]M) {
+		if q["app"].(int64) == app && q["pool"].(int64) == pool && q["owner"].(string) == u {
+			for _, c := range q["q"].([]M) {
+				tot += c["amt"].(int64)
+			}
+		}
+	}
+	for _, q := range r.st["af"].([]M) {
+		if q["app"].(int64) == app && q["pool"].(int64) == pool && q["owner"].(string) == u {
+			tot += q["amt"].(int64)
+		}
+	}
+	return tot
+}
+
 func (r *runner) randomStep(rng *sim.Rng, c cfg) {
 	u := Users[rng.Weighted([]int{5, 5, 4, 1})]
 	app := c.apps[rng.Intn(len(c.apps))]
@@ -145,7 +193,13 @@ func (r *runner) randomStep(rng *sim.Rng, c cfg) {
 		pair = 3 // nonexistent
 	}
 	pool := int64(1 + rng.Intn(2))
-	if rng.Intn(25) == 0 {
+	if all, en := r.poolsOf(app); len(all) > 0 && rng.Intn(12) != 0 {
+		pool = all[rng.Intn(len(all))]
+		if len(en) > 0 && rng.Intn(4) != 0 {
+			pool = en[rng.Intn(len(en))]
+		}
+	}
+	if rng.Intn(30) == 0 {
 		pool = 3
 	}
 	w := []int{ // weights
@@ -177,7 +231,11 @@ func (r *runner) randomStep(rng *sim.Rng, c cfg) {
 	if rng.Intn(30) == 0 {
 		amt = badAmt[rng.Intn(len(badAmt))]
 	}
-	life := lifeGrid[rng.Intn(len(lifeGrid))]
+	maxLife := r.w.Pars[app-1].MaxLife
+	life := []int64{0, 6, 60, 600, maxLife, maxLife, 3000, maxLife + 1}[rng.Intn(8)]
+	if life > maxLife && rng.Intn(3) != 0 {
+		life = maxLife / 2
+	}
 	ctr := r.centre(app, pair)
 	if r.st["lastPool"].([]int64)[app-1] >= MaxPool { // the fixture's account universe has MaxPool reserves per app
 		w[6], w[7] = 0, 0
@@ -209,7 +267,13 @@ func (r *runner) randomStep(rng *sim.Rng, c cfg) {
 		if offer < 100 {
 			offer = 100
 		}
-		if rng.Intn(4) != 0 {
+		hasLp := false
+		for _, p := range r.st["pairs"].([]M) {
+			if p["app"].(int64) == app && p["id"].(int64) == pair && p["lp"].(int64) > 0 {
+				hasLp = true
+			}
+		}
+		if rng.Intn(4) != 0 || (!hasLp && rng.Intn(5) != 0) {
 			r.step("LimitOrder", M{"u": u, "app": app, "pair": pair, "dir": dir, "price": price, "amt": amt, "offer": offer, "life": life})
 		} else {
 			if dir == "B" {
@@ -246,6 +310,9 @@ func (r *runner) randomStep(rng *sim.Rng, c cfg) {
 			return
 		}
 		o := os[rng.Intn(len(os))]
+		if lv := r.orders(func(o M) bool { return o["app"].(int64) == app && live(o) }); len(lv) > 0 && rng.Intn(4) != 0 {
+			o = lv[rng.Intn(len(lv))]
+		}
 		who := o["owner"].(string)
 		if rng.Intn(8) == 0 {
 			who = u // possibly a foreign signer
@@ -280,7 +347,7 @@ func (r *runner) randomStep(rng *sim.Rng, c cfg) {
 		x := []int64{1000, 5000, 20000, 400, 100000}[rng.Intn(5)]
 		y := x * PS / ctr
 		if rng.Intn(4) == 0 {
-			y = []int64{1000, 5000, 20000, 300}[rng.Intn(4)]
+			y = y * int64(85+rng.Intn(31)) / 100 // pool price within +-15% of the book
 		}
 		r.step("CreatePool", M{"u": u, "app": app, "pair": pair, "x": x, "y": y})
 	case 7:
@@ -297,13 +364,21 @@ func (r *runner) randomStep(rng *sim.Rng, c cfg) {
 		}
 		r.step("Deposit", M{"u": u, "app": app, "pool": pool, "x": x, "y": y})
 	case 9:
+		for _, cand := range Users { // prefer a holder of the pool coin
+			if r.balOf(cand, fmt.Sprintf("pool%d-%d", app, pool)) > 0 && rng.Intn(3) != 0 {
+				u = cand
+				break
+			}
+		}
 		pc := r.balOf(u, fmt.Sprintf("pool%d-%d", app, pool))
-		switch rng.Intn(4) {
+		switch rng.Intn(6) {
 		case 0: // everything
 		case 1:
 			pc = pc / 2
 		case 2:
 			pc = pc / 10
+		case 3, 4:
+			pc = int64(1 + rng.Intn(3)) // worth nothing: the request fails at the end of the batch and is refunded
 		default:
 			pc = pc + 1 // more than owned
 		}
@@ -312,6 +387,12 @@ func (r *runner) randomStep(rng *sim.Rng, c cfg) {
 		}
 		r.step("Withdraw", M{"u": u, "app": app, "pool": pool, "pc": pc})
 	case 10:
+		for _, cand := range Users {
+			if r.balOf(cand, fmt.Sprintf("pool%d-%d", app, pool)) > 0 && rng.Intn(3) != 0 {
+				u = cand
+				break
+			}
+		}
 		pc := r.balOf(u, fmt.Sprintf("pool%d-%d", app, pool))
 		a := []int64{pc, pc / 2, pc / 3, 1, pc + 1}[rng.Intn(5)]
 		if a <= 0 {
@@ -319,19 +400,13 @@ func (r *runner) randomStep(rng *sim.Rng, c cfg) {
 		}
 		r.step("Farm", M{"u": u, "app": app, "pool": pool, "amt": a})
 	case 11, 13:
-		var tot int64
-		for _, q := range r.st["qf"].([]M) {
-			if q["app"].(int64) == app && q["pool"].(int64) == pool && q["owner"].(string) == u {
-				for _, c := range q["q"].([]M) {
-					tot += c["amt"].(int64)
-				}
+		for _, cand := range Users { // prefer a farmer of this pool
+			if r.farmedBy(cand, app, pool) > 0 && rng.Intn(4) != 0 {
+				u = cand
+				break
 			}
 		}
-		for _, q := range r.st["af"].([]M) {
-			if q["app"].(int64) == app && q["pool"].(int64) == pool && q["owner"].(string) == u {
-				tot += q["amt"].(int64)
-			}
-		}
+		tot := r.farmedBy(u, app, pool)
 		a := []int64{tot, tot / 2, tot / 3, 1, tot + 1, tot}[rng.Intn(6)]
 		if a <= 0 {
 			a = 1
@@ -454,6 +529,27 @@ func driveRandom(lg *sim.Log, base *World, seed int64, runs, steps int) {
 			c = cfg{apps: []int64{1}, pairsOf: map[int64][]int64{1: {1}}, pools: true, mm: true}
 		}
 		r.setupPairs(rng, c)
+		if c.pools { // a basic pool per pair and some pool-coin holders / farmers from the start
+			for _, app := range c.apps {
+				for _, pr := range c.pairsOf[app] {
+					if rng.Intn(4) == 0 {
+						continue
+					}
+					ctr := r.centre(app, pr)
+					x := []int64{5000, 20000, 100000}[rng.Intn(3)]
+					r.step("CreatePool", M{"u": Users[rng.Intn(3)], "app": app, "pair": pr, "x": x, "y": x * PS / ctr})
+					all, _ := r.poolsOf(app)
+					if len(all) == 0 {
+						continue
+					}
+					pl := all[len(all)-1]
+					r.step("Deposit", M{"u": Users[rng.Intn(3)], "app": app, "pool": pl, "x": x / 4, "y": x / 4 * PS / ctr})
+					r.step("DepositAndFarm", M{"u": Users[rng.Intn(3)], "app": app, "pool": pl, "x": x / 5, "y": x / 5 * PS / ctr})
+				}
+			}
+			r.block(6)
+			r.block(6)
+		}
 		if rng.Intn(3) == 0 {
 			r.step("CreatePair", M{"u": "u1", "app": c.apps[0], "base": "uaa", "quote": "ubb"}) // duplicate
 		}
@@ -629,6 +725,6 @@ func Main(args []string) int {
 		fmt.Fprintln(os.Stderr, err)
 		return 2
 	}
-	fmt.Printf("liquidity: alphabet=%d explored=%d nodes=%d\n", ne, done, len(lg.Nodes))
+	fmt.Printf("liquidity: alphabet=%d explored=%d nodes=%d runs_left_domain=%d\n", ne, done, len(lg.Nodes), outOfDomain)
 	return 0
 }
